@@ -347,8 +347,37 @@ func drawC17(t *rapid.T) any {
 		c.Gos = drawGoHistory(t, n, gomodel.TypeCfg{Tags: true, Pool: true, FoldOnly: true, Arrays: true, Recursive: !genExcludedRecursive()},
 			func() gomodel.ValCfg { return gomodel.ValCfg{Budget: 25} })
 	case "unfolder":
+		if rapid.IntRange(0, 5).Draw(t, "userhist") == 0 {
+			// a type with a user unfolder (primitive, processing, stateful,
+			// Expander) reached through different lookups on one instance: as
+			// target, through pointers, as element and as field, in drawn order
+			var names []string
+			for _, p := range gomodel.Pool {
+				if p.NeedsUnfoldOpts || p.Name == "ExpInt" || p.Name == "ExpPair" {
+					names = append(names, p.Name)
+				}
+			}
+			b := gomodel.TypeDesc{Kind: "pool", Pool: rapid.SampledFrom(names).Draw(t, "usertype")}
+			pb := gomodel.TypeDesc{Kind: "ptr", Elem: &b}
+			shapes := []gomodel.TypeDesc{b, pb, {Kind: "slice", Elem: &b}, {Kind: "slice", Elem: &pb}, {Kind: "map", Elem: &b}, {Kind: "map", Elem: &pb},
+				{Kind: "struct", Fields: []gomodel.FieldDesc{{Name: "A", Type: gomodel.TypeDesc{Kind: "int"}}, {Name: "P", Type: pb}, {Name: "V", Type: b}}}}
+			for i := 0; i < n; i++ {
+				td := shapes[rapid.IntRange(0, len(shapes)-1).Draw(t, "usershape")]
+				typ, err := gomodel.Build(&td)
+				if err != nil {
+					t.Fatalf("harness: %v", err)
+				}
+				route := rapid.SampledFrom(routes).Draw(t, "route")
+				g := GoCase{Type: td, Val: gomodel.DrawValue(t, typ, gomodel.ValCfg{Budget: 15, ValidUTF8: route == "json", Finite: route == "json", NoBigUint: route == "ubjson"}), Route: route}
+				c.Gos = append(c.Gos, g)
+			}
+			if rapid.IntRange(0, 2).Draw(t, "keycache") == 0 {
+				c.KeyCache = rapid.SampledFrom([]int{1, 2, 3, 8}).Draw(t, "keycachecap")
+			}
+			return c
+		}
 		var rs []string
-		c.Gos = drawGoHistory(t, n, gomodel.TypeCfg{Tags: true, Pool: true, InlineOnlyStruct: true, Recursive: !genExcludedRecursive()},
+		c.Gos = drawGoHistory(t, n, gomodel.TypeCfg{Tags: true, Pool: true, InlineOnlyStruct: true, Normalising: true, Recursive: !genExcludedRecursive()},
 			func() gomodel.ValCfg {
 				route := rapid.SampledFrom(routes).Draw(t, "route")
 				rs = append(rs, route)
@@ -367,7 +396,7 @@ func drawC17(t *rapid.T) any {
 func init() {
 	register(&Property{
 		ID:            "C17",
-		Rule:          "histories of 2..5 complete documents on ONE instance, per instance kind: 3 encoders (generated event streams incl. extended events, typed containers, options), 3 parsers (Parser.Parse for any value, Parser.Write for self-delimiting container documents; own and foreign documents incl. counted/typed containers), 3 pull decoders (byte slice and reader with generated read schedules), the fold iterator (generated Go types/values incl. pool types) and the unfolder (SetTarget + document via direct/json/ubjson/cborl; 1 in 3 histories with the key cache enabled at capacity 1, 2, 3 or 8); after EVERY step the instance's output for that document is compared with a fresh instance's (encoder bytes; parser/decoder events; iterator value; unfolder target) and all stack-depth hooks must be idle; non-trivial = history >= 2 documents (encoders: of at least two different shapes); distinct by case hash",
+		Rule:          "histories of 2..5 complete documents on ONE instance, per instance kind: 3 encoders (generated event streams incl. extended events, typed containers, options), 3 parsers (Parser.Parse for any value, Parser.Write for self-delimiting container documents; own and foreign documents incl. counted/typed containers), 3 pull decoders (byte slice and reader with generated read schedules), the fold iterator (generated Go types/values incl. pool types) and the unfolder (SetTarget + document via direct/json/ubjson/cborl; 1 in 6 histories walk one type with a user unfolder through different lookups: as target, through pointers, as slice/map element, as struct field; 1 in 3 histories with the key cache enabled at capacity 1, 2, 3 or 8); after EVERY step the instance's output for that document is compared with a fresh instance's (encoder bytes; parser/decoder events; iterator value; unfolder target) and all stack-depth hooks must be idle; non-trivial = history >= 2 documents (encoders: of at least two different shapes); distinct by case hash",
 		New:           func() any { return &C17Case{} },
 		Draw:          drawC17,
 		Check:         checkC17,
